@@ -145,6 +145,6 @@ def all_units(prop, src_dir='/repo/src', robustness=False):
                 continue
             us.append(ec_unit(prop, 'alg.%s.%s' % (module, fc.function), module, [fc.function], src_dir=src_dir, robustness=robustness))
     if prop == 'C06':
-        us.append(constants_unit(prop))
+        us.append(constants_unit(prop, nist_py=os.path.join(os.path.dirname(src_dir.rstrip('/')), 'lib', 'Crypto', 'PublicKey', '_nist_ecc.py')))
         us.append(range_unit(prop, src_dir=src_dir))
     return us
